@@ -152,12 +152,14 @@ theorem tail_deferred (s : Server) (i : Nat) (c : Client) (out : Msg) (hfr : flG
 
 /-- (d): a fresh identifier and send quota (or no Receive Maximum at all): stored, one unit of quota taken, written -/
 theorem tail_sent (s : Server) (i : Nat) (c : Client) (out : Msg) (hfr : flGet c out.id = none)
-    (hnd : ¬ (c.sendQuota = 0 ∧ c.maxSend > 0)) (ho : c.isOpen = true) :
+    (hnd : ¬ (c.sendQuota = 0 ∧ c.maxSend > 0)) :
     tail s i c out =
       ({ setObj s i { c with inflight := c.inflight ++ [out], sendQuota := c.sendQuota - 1 } with
           info := { s.info with inflight := s.info.inflight + 1 } },
-       writeMsg { setObj s i { c with inflight := c.inflight ++ [out], sendQuota := c.sendQuota - 1 } with
-          info := { s.info with inflight := s.info.inflight + 1 } } i out) := by
+       if c.isOpen = true then
+         writeMsg { setObj s i { c with inflight := c.inflight ++ [out], sendQuota := c.sendQuota - 1 } with
+          info := { s.info with inflight := s.info.inflight + 1 } } i out
+       else []) := by
   unfold tail
   rw [fc11_flSet_fresh c out hfr]
   simp only [if_true]
@@ -168,11 +170,11 @@ theorem tail_sent (s : Server) (i : Nat) (c : Client) (out : Msg) (hfr : flGet c
       simp [this]
     · simp [h1]
   have hc' : (c.sendQuota == 0 && decide (({ c with inflight := c.inflight ++ [out], sendQuota := c.sendQuota - 1 } : Client).maxSend > 0)) = false := hc
-  have ho' : (!({ c with inflight := c.inflight ++ [out], sendQuota := c.sendQuota - 1 } : Client).isOpen) = false := by
-    show (!c.isOpen) = false
-    rw [ho]; rfl
-  simp only [hc', ho', Bool.false_eq_true, if_false]
-  rfl
+  simp only [hc', Bool.false_eq_true, if_false]
+  show (if (!c.isOpen) = true then _ else _) = _
+  cases c.isOpen
+  · rfl
+  · rfl
 
 theorem getObj_info (s : Server) (inf : Info) (k : Nat) : getObj { s with info := inf } k = getObj s k := rfl
 
@@ -186,8 +188,7 @@ structure Live (s : Server) (i : Nat) : Prop where
   noAlias : (getObj s i).tam = 0
 
 /-- state and outputs of a delivery of QoS > 0, by verdict -/
-def coreResult (s : Server) (i : Nat) (sub : Sub) (pk : Msg) : Server × List Out :=
-  match verdict s i with
+def verdictResult (s : Server) (i : Nat) (sub : Sub) (pk : Msg) : Verdict → Server × List Out
   | .limit => (droppedState s, [])
   | .exhausted => (droppedState s, [.event s!"idexh({hexStr (getObj s i).id})"])
   | .deferred pid => (storedState s i { copyOf s i sub pk pid with expiry := -1 } 0, [])
@@ -196,44 +197,512 @@ def coreResult (s : Server) (i : Nat) (sub : Sub) (pk : Msg) : Server × List Ou
      [.wrote (getObj s i).conn (.publish (getObj s i).ver (copyOf s i sub pk pid)
         (decide ((copyOf s i sub pk pid).expiry > 0) || decide ((copyOf s i sub pk pid).msgExpiry > 0)))])
 
+def coreResult (s : Server) (i : Nat) (sub : Sub) (pk : Msg) : Server × List Out :=
+  verdictResult s i sub pk (verdict s i)
+
+theorem verdict_limit (s : Server) (i : Nat) (ha : (getObj s i).inflight.length ≥ s.caps.maximumInflight) :
+    verdict s i = .limit := by
+  unfold verdict; rw [if_pos ha]
+
+theorem verdict_exhausted (s : Server) (i : Nat) (ha : ¬ (getObj s i).inflight.length ≥ s.caps.maximumInflight)
+    (hn : nextPacketID (getObj s i) s.caps.maximumPacketID = none) : verdict s i = .exhausted := by
+  unfold verdict; rw [if_neg ha, hn]
+
+theorem verdict_deferred (s : Server) (i pid : Nat) (ha : ¬ (getObj s i).inflight.length ≥ s.caps.maximumInflight)
+    (hn : nextPacketID (getObj s i) s.caps.maximumPacketID = some pid)
+    (hd : (getObj s i).sendQuota = 0 ∧ (getObj s i).maxSend > 0) : verdict s i = .deferred pid := by
+  unfold verdict; rw [if_neg ha, hn]; exact if_pos hd
+
+theorem verdict_sent (s : Server) (i pid : Nat) (ha : ¬ (getObj s i).inflight.length ≥ s.caps.maximumInflight)
+    (hn : nextPacketID (getObj s i) s.caps.maximumPacketID = some pid)
+    (hd : ¬ ((getObj s i).sendQuota = 0 ∧ (getObj s i).maxSend > 0)) : verdict s i = .sent pid := by
+  unfold verdict; rw [if_neg ha, hn]; exact if_neg hd
+
+theorem getObj_stored (s : Server) (i : Nat) (m : Msg) (dq : Nat) (hi : i < s.objs.length) :
+    getObj (storedState s i m dq) i =
+      { getObj s i with packetID := m.id, inflight := (getObj s i).inflight ++ [m],
+                        sendQuota := (getObj s i).sendQuota - dq } := by
+  unfold storedState
+  rw [getObj_info]
+  exact getObj_setObj_eq s i _ hi
+
+/-- the general form: the state is that of the verdict whether or not the client can be written to; in case (d)
+    the output is what `writeMsg` makes of the copy -/
+theorem core_gen (s : Server) (i : Nat) (sub : Sub) (pk : Msg) (htam : (getObj s i).tam = 0)
+    (hq : shapeQos s.caps sub pk.qos > 0) :
+    publishToClientCore s i sub false pk =
+      ((coreResult s i sub pk).1,
+       match verdict s i with
+       | .sent pid => if (getObj s i).isOpen = true then
+           writeMsg (storedState s i (copyOf s i sub pk pid) 1) i (copyOf s i sub pk pid) else []
+       | _ => (coreResult s i sub pk).2) := by
+  rw [core_unfold s i sub false pk htam]
+  have hq' : (shapeOut s.caps (getObj s i).ver sub false pk).qos > 0 := hq
+  rw [if_pos hq']
+  unfold coreResult
+  by_cases ha : (getObj s i).inflight.length ≥ s.caps.maximumInflight
+  · rw [if_pos ha, verdict_limit s i ha]; rfl
+  · rw [if_neg ha]
+    cases hn : nextPacketID (getObj s i) s.caps.maximumPacketID with
+    | none => rw [verdict_exhausted s i ha hn]; rfl
+    | some pid =>
+      have hfr : flGet (getObj s i) pid = none := nextPacketID_fresh _ _ _ hn
+      show tail s i { getObj s i with packetID := pid } (copyOf s i sub pk pid) = _
+      by_cases hd : (getObj s i).sendQuota = 0 ∧ (getObj s i).maxSend > 0
+      · rw [verdict_deferred s i pid ha hn hd,
+          tail_deferred s i { getObj s i with packetID := pid } (copyOf s i sub pk pid) hfr hd.1 hd.2]
+        rfl
+      · rw [verdict_sent s i pid ha hn hd,
+          tail_sent s i { getObj s i with packetID := pid } (copyOf s i sub pk pid) hfr hd]
+        rfl
+
 /-- **Item 1 — the complete classification**, as one equation: state and outputs of a delivery of QoS > 0 to a live
     network client without outbound aliases -/
 theorem core_eq (s : Server) (i : Nat) (sub : Sub) (pk : Msg) (h : Live s i) (ht : pk.type = 3)
     (hq : shapeQos s.caps sub pk.qos > 0) :
     publishToClientCore s i sub false pk = coreResult s i sub pk := by
-  rw [core_unfold s i sub false pk h.noAlias]
-  have hq' : (shapeOut s.caps (getObj s i).ver sub false pk).qos > 0 := hq
-  rw [if_pos hq']
-  unfold coreResult verdict
-  by_cases ha : (getObj s i).inflight.length ≥ s.caps.maximumInflight
-  · rw [if_pos ha, if_pos ha]
-  · rw [if_neg ha, if_neg ha]
-    cases hn : nextPacketID (getObj s i) s.caps.maximumPacketID with
-    | none => rfl
-    | some pid =>
-      have hfr : flGet (getObj s i) pid = none := nextPacketID_fresh _ _ _ hn
-      show tail s i { getObj s i with packetID := pid } (copyOf s i sub pk pid) =
-        match (if (getObj s i).sendQuota = 0 ∧ (getObj s i).maxSend > 0 then Verdict.deferred pid else Verdict.sent pid) with
-        | .limit => (droppedState s, [])
-        | .exhausted => (droppedState s, [.event s!"idexh({hexStr (getObj s i).id})"])
-        | .deferred pid => (storedState s i { copyOf s i sub pk pid with expiry := -1 } 0, [])
-        | .sent pid =>
-          (storedState s i (copyOf s i sub pk pid) 1,
-           [.wrote (getObj s i).conn (.publish (getObj s i).ver (copyOf s i sub pk pid)
-              (decide ((copyOf s i sub pk pid).expiry > 0) || decide ((copyOf s i sub pk pid).msgExpiry > 0)))])
-      by_cases hd : (getObj s i).sendQuota = 0 ∧ (getObj s i).maxSend > 0
-      · rw [if_pos hd, tail_deferred s i { getObj s i with packetID := pid } (copyOf s i sub pk pid) hfr hd.1 hd.2]
-        rfl
-      · rw [if_neg hd, tail_sent s i { getObj s i with packetID := pid } (copyOf s i sub pk pid) hfr hd h.isOpen]
-        have hg : getObj (storedState s i (copyOf s i sub pk pid) 1) i =
-            { getObj s i with packetID := pid, inflight := (getObj s i).inflight ++ [copyOf s i sub pk pid],
-                              sendQuota := (getObj s i).sendQuota - 1 } := by
-          unfold storedState
-          rw [getObj_info]
-          exact getObj_setObj_eq s i _ h.lt
-        have hw := writeMsg_live (storedState s i (copyOf s i sub pk pid) 1) i (copyOf s i sub pk pid) ht
-          (by rw [hg]; exact h.isOpen) (by rw [hg]; exact h.notInline) (by rw [hg]; exact h.peer)
-        rw [hg] at hw
-        exact Prod.ext rfl hw
+  rw [core_gen s i sub pk h.noAlias hq]
+  refine Prod.ext rfl ?_
+  show (match verdict s i with
+       | .sent pid => if (getObj s i).isOpen = true then
+           writeMsg (storedState s i (copyOf s i sub pk pid) 1) i (copyOf s i sub pk pid) else []
+       | _ => (coreResult s i sub pk).2) = (coreResult s i sub pk).2
+  unfold coreResult
+  cases hv : verdict s i with
+  | limit => rfl
+  | exhausted => rfl
+  | deferred pid => rfl
+  | sent pid =>
+    show (if (getObj s i).isOpen = true then
+           writeMsg (storedState s i (copyOf s i sub pk pid) 1) i (copyOf s i sub pk pid) else []) = _
+    rw [if_pos h.isOpen]
+    have hg := getObj_stored s i (copyOf s i sub pk pid) 1 h.lt
+    have hw := writeMsg_live (storedState s i (copyOf s i sub pk pid) 1) i (copyOf s i sub pk pid) ht
+      (by rw [hg]; exact h.isOpen) (by rw [hg]; exact h.notInline) (by rw [hg]; exact h.peer)
+    rw [hg] at hw
+    exact hw
+
+/-! ### one entry of the subscriber map, any QoS -/
+
+/-- the two gates of `publishToClient`: No Local and the read permission -/
+def passes (s : Server) (i : Nat) (sub : Sub) (pk : Msg) : Bool :=
+  !(sub.noLocal && pk.origin == (getObj s i).id) && aclOk s (getObj s i).id pk.topic false
+
+/-- the client object can be written to -/
+def liveB (s : Server) (i : Nat) : Bool := (getObj s i).isOpen && !(getObj s i).inline && !(getObj s i).peerGone
+
+def isSent : Verdict → Bool
+  | .sent _ => true
+  | _ => false
+
+def isDrop : Verdict → Bool
+  | .limit => true
+  | .exhausted => true
+  | _ => false
+
+/-- state and outputs of `publishToClient s i sub false pk`, explicitly (object `i` without outbound aliases) -/
+def entryResult (s : Server) (i : Nat) (sub : Sub) (pk : Msg) : Server × List Out :=
+  if passes s i sub pk = true then
+    if shapeQos s.caps sub pk.qos > 0 then
+      ((coreResult s i sub pk).1,
+       if liveB s i = true then (coreResult s i sub pk).2 else (coreResult s i sub pk).2.filter (fun o => (pubConn o).isNone))
+    else
+      (s, if liveB s i = true then
+            [.wrote (getObj s i).conn (.publish (getObj s i).ver (shapeOut s.caps (getObj s i).ver sub false pk)
+              (decide ((shapeOut s.caps (getObj s i).ver sub false pk).expiry > 0) ||
+               decide ((shapeOut s.caps (getObj s i).ver sub false pk).msgExpiry > 0)))]
+          else [])
+  else (s, [])
+
+theorem liveB_true_iff (s : Server) (i : Nat) :
+    liveB s i = true ↔ (getObj s i).isOpen = true ∧ (getObj s i).inline = false ∧ (getObj s i).peerGone = false := by
+  unfold liveB
+  cases (getObj s i).isOpen <;> cases (getObj s i).inline <;> cases (getObj s i).peerGone <;> simp
+
+theorem writeMsg_dead (s : Server) (i : Nat) (m : Msg) (h : liveB s i = false) : writeMsg s i m = [] := by
+  unfold liveB at h
+  unfold writeMsg
+  have : (!(getObj s i).isOpen || (getObj s i).inline || (getObj s i).peerGone) = true := by
+    cases h1 : (getObj s i).isOpen <;> cases h2 : (getObj s i).inline <;> cases h3 : (getObj s i).peerGone <;> simp_all
+  simp only [this, if_true]
+
+/-- the state of a delivery of QoS > 0 does not depend on whether the client can be written to; the outputs of a
+    client that cannot be written to contain no write -/
+theorem core_dead (s : Server) (i : Nat) (sub : Sub) (pk : Msg) (hi : i < s.objs.length)
+    (htam : (getObj s i).tam = 0) (hl : liveB s i = false) (hq : shapeQos s.caps sub pk.qos > 0) :
+    publishToClientCore s i sub false pk =
+      ((coreResult s i sub pk).1, (coreResult s i sub pk).2.filter (fun o => (pubConn o).isNone)) := by
+  rw [core_gen s i sub pk htam hq]
+  refine Prod.ext rfl ?_
+  show (match verdict s i with
+       | .sent pid => if (getObj s i).isOpen = true then
+           writeMsg (storedState s i (copyOf s i sub pk pid) 1) i (copyOf s i sub pk pid) else []
+       | _ => (coreResult s i sub pk).2) = (coreResult s i sub pk).2.filter (fun o => (pubConn o).isNone)
+  unfold coreResult
+  cases hv : verdict s i with
+  | limit => rfl
+  | exhausted => rfl
+  | deferred pid => rfl
+  | sent pid =>
+    show (if (getObj s i).isOpen = true then
+           writeMsg (storedState s i (copyOf s i sub pk pid) 1) i (copyOf s i sub pk pid) else []) = []
+    have hg := getObj_stored s i (copyOf s i sub pk pid) 1 hi
+    have hl' : liveB (storedState s i (copyOf s i sub pk pid) 1) i = false := by
+      unfold liveB at hl ⊢
+      rw [hg]; exact hl
+    rw [writeMsg_dead _ i _ hl']
+    split <;> rfl
+
+theorem live_of (s : Server) (i : Nat) (hi : i < s.objs.length) (htam : (getObj s i).tam = 0) (hl : liveB s i = true) :
+    Live s i :=
+  let h := (liveB_true_iff s i).mp hl
+  ⟨hi, h.1, h.2.1, h.2.2, htam⟩
+
+/-- **one entry of the subscriber map**: `publishToClient`, explicitly -/
+theorem entry_eq (s : Server) (i : Nat) (sub : Sub) (pk : Msg) (hi : i < s.objs.length)
+    (htam : (getObj s i).tam = 0) (ht : pk.type = 3) :
+    publishToClient s i sub false pk = entryResult s i sub pk := by
+  unfold publishToClient entryResult passes
+  by_cases h1 : (sub.noLocal && pk.origin == (getObj s i).id) = true
+  · rw [if_pos h1, h1]; rfl
+  · rw [if_neg h1]
+    have h1' : (sub.noLocal && pk.origin == (getObj s i).id) = false := by simpa using h1
+    rw [h1']
+    by_cases h2 : aclOk s (getObj s i).id pk.topic false = true
+    · rw [h2]
+      simp only [Bool.not_true, Bool.false_eq_true, if_false, Bool.not_false, Bool.and_self, if_true]
+      by_cases hq : shapeQos s.caps sub pk.qos > 0
+      · rw [if_pos hq]
+        cases hl : liveB s i with
+        | true => rw [core_eq s i sub pk (live_of s i hi htam hl) ht hq]; rfl
+        | false => rw [core_dead s i sub pk hi htam hl hq]; rfl
+      · rw [if_neg hq, core_unfold s i sub false pk htam]
+        have hq' : ¬ (shapeOut s.caps (getObj s i).ver sub false pk).qos > 0 := hq
+        rw [if_neg hq']
+        cases hl : liveB s i with
+        | true =>
+          have h := (liveB_true_iff s i).mp hl
+          rw [writeMsg_live s i (shapeOut s.caps (getObj s i).ver sub false pk) ht h.1 h.2.1 h.2.2, h.1]
+          rfl
+        | false =>
+          rw [writeMsg_dead s i (shapeOut s.caps (getObj s i).ver sub false pk) hl]
+          cases (getObj s i).isOpen <;> rfl
+    · have h2' : aclOk s (getObj s i).id pk.topic false = false := by simpa using h2
+      rw [h2']
+      rfl
+
+/-! ### what one entry does, read off `caps`, `aclDeny` and the receiving object only -/
+
+/-- the entry changes object `i` and the counters, nothing else -/
+structure Only (i : Nat) (s s' : Server) : Prop where
+  caps : s'.caps = s.caps
+  clients : s'.clients = s.clients
+  aclDeny : s'.aclDeny = s.aclDeny
+  len : s'.objs.length = s.objs.length
+  other : ∀ k, k ≠ i → getObj s' k = getObj s k
+
+theorem Only.refl (i : Nat) (s : Server) : Only i s s := ⟨rfl, rfl, rfl, rfl, fun _ _ => rfl⟩
+
+theorem only_stored (s : Server) (i : Nat) (m : Msg) (dq : Nat) : Only i s (storedState s i m dq) := by
+  refine ⟨rfl, rfl, rfl, ?_, fun k hk => ?_⟩
+  · unfold storedState; exact setObj_length s i _
+  · unfold storedState; rw [getObj_info]; exact getObj_setObj_ne s i k _ hk
+
+theorem only_verdict (s : Server) (i : Nat) (sub : Sub) (pk : Msg) (v : Verdict) :
+    Only i s (verdictResult s i sub pk v).1 := by
+  cases v with
+  | limit => exact ⟨rfl, rfl, rfl, rfl, fun _ _ => rfl⟩
+  | exhausted => exact ⟨rfl, rfl, rfl, rfl, fun _ _ => rfl⟩
+  | deferred pid => exact only_stored s i _ 0
+  | sent pid => exact only_stored s i _ 1
+
+theorem entry_only (s : Server) (i : Nat) (sub : Sub) (pk : Msg) : Only i s (entryResult s i sub pk).1 := by
+  unfold entryResult
+  by_cases h1 : passes s i sub pk = true
+  · rw [if_pos h1]
+    by_cases hq : shapeQos s.caps sub pk.qos > 0
+    · rw [if_pos hq]; exact only_verdict s i sub pk _
+    · rw [if_neg hq]; exact Only.refl i s
+  · rw [if_neg h1]; exact Only.refl i s
+
+/-- the outputs of a verdict -/
+def verdictOut (s : Server) (i : Nat) (sub : Sub) (pk : Msg) : Verdict → List Out
+  | .exhausted => [.event s!"idexh({hexStr (getObj s i).id})"]
+  | .sent pid =>
+    [.wrote (getObj s i).conn (.publish (getObj s i).ver (copyOf s i sub pk pid)
+        (decide ((copyOf s i sub pk pid).expiry > 0) || decide ((copyOf s i sub pk pid).msgExpiry > 0)))]
+  | _ => []
+
+/-- the receiving object after a verdict -/
+def verdictObj (s : Server) (i : Nat) (sub : Sub) (pk : Msg) : Verdict → Client
+  | .deferred pid =>
+    { getObj s i with packetID := pid,
+                      inflight := (getObj s i).inflight ++ [{ copyOf s i sub pk pid with expiry := -1 }] }
+  | .sent pid =>
+    { getObj s i with packetID := pid, inflight := (getObj s i).inflight ++ [copyOf s i sub pk pid],
+                      sendQuota := (getObj s i).sendQuota - 1 }
+  | _ => getObj s i
+
+theorem verdictResult_snd (s : Server) (i : Nat) (sub : Sub) (pk : Msg) (v : Verdict) :
+    (verdictResult s i sub pk v).2 = verdictOut s i sub pk v := by cases v <;> rfl
+
+theorem getObj_verdictResult (s : Server) (i : Nat) (sub : Sub) (pk : Msg) (v : Verdict) (hi : i < s.objs.length) :
+    getObj (verdictResult s i sub pk v).1 i = verdictObj s i sub pk v := by
+  cases v with
+  | limit => rfl
+  | exhausted => rfl
+  | deferred pid => exact getObj_stored s i _ 0 hi
+  | sent pid => exact getObj_stored s i _ 1 hi
+
+/-- the outputs of the entry -/
+def entryOut (s : Server) (i : Nat) (sub : Sub) (pk : Msg) : List Out :=
+  if passes s i sub pk = true then
+    if shapeQos s.caps sub pk.qos > 0 then
+      (if liveB s i = true then verdictOut s i sub pk (verdict s i)
+       else (verdictOut s i sub pk (verdict s i)).filter (fun o => (pubConn o).isNone))
+    else
+      (if liveB s i = true then
+            [.wrote (getObj s i).conn (.publish (getObj s i).ver (shapeOut s.caps (getObj s i).ver sub false pk)
+              (decide ((shapeOut s.caps (getObj s i).ver sub false pk).expiry > 0) ||
+               decide ((shapeOut s.caps (getObj s i).ver sub false pk).msgExpiry > 0)))]
+          else [])
+  else []
+
+/-- the receiving object after the entry -/
+def entryObj (s : Server) (i : Nat) (sub : Sub) (pk : Msg) : Client :=
+  if passes s i sub pk = true then
+    if shapeQos s.caps sub pk.qos > 0 then verdictObj s i sub pk (verdict s i) else getObj s i
+  else getObj s i
+
+theorem entryResult_snd (s : Server) (i : Nat) (sub : Sub) (pk : Msg) :
+    (entryResult s i sub pk).2 = entryOut s i sub pk := by
+  unfold entryResult entryOut coreResult
+  by_cases h1 : passes s i sub pk = true
+  · rw [if_pos h1, if_pos h1]
+    by_cases hq : shapeQos s.caps sub pk.qos > 0
+    · rw [if_pos hq, if_pos hq, verdictResult_snd]
+    · rw [if_neg hq, if_neg hq]
+  · rw [if_neg h1, if_neg h1]
+
+theorem getObj_entryResult (s : Server) (i : Nat) (sub : Sub) (pk : Msg) (hi : i < s.objs.length) :
+    getObj (entryResult s i sub pk).1 i = entryObj s i sub pk := by
+  unfold entryResult entryObj coreResult
+  by_cases h1 : passes s i sub pk = true
+  · rw [if_pos h1, if_pos h1]
+    by_cases hq : shapeQos s.caps sub pk.qos > 0
+    · rw [if_pos hq, if_pos hq]; exact getObj_verdictResult s i sub pk _ hi
+    · rw [if_neg hq, if_neg hq]
+  · rw [if_neg h1, if_neg h1]
+
+/-- `t` looks to the entry of object `i` like `s` -/
+structure SameFor (i : Nat) (s t : Server) : Prop where
+  caps : t.caps = s.caps
+  aclDeny : t.aclDeny = s.aclDeny
+  obj : getObj t i = getObj s i
+
+theorem verdict_congr {i : Nat} {s t : Server} (h : SameFor i s t) : verdict t i = verdict s i := by
+  unfold verdict; rw [h.caps, h.obj]
+
+theorem passes_congr {i : Nat} {s t : Server} (h : SameFor i s t) (sub : Sub) (pk : Msg) :
+    passes t i sub pk = passes s i sub pk := by
+  unfold passes aclOk; rw [h.aclDeny, h.obj]
+
+theorem liveB_congr {i : Nat} {s t : Server} (h : SameFor i s t) : liveB t i = liveB s i := by
+  unfold liveB; rw [h.obj]
+
+theorem copyOf_congr {i : Nat} {s t : Server} (h : SameFor i s t) (sub : Sub) (pk : Msg) (pid : Nat) :
+    copyOf t i sub pk pid = copyOf s i sub pk pid := by
+  unfold copyOf; rw [h.caps, h.obj]
+
+theorem verdictOut_congr {i : Nat} {s t : Server} (h : SameFor i s t) (sub : Sub) (pk : Msg) (v : Verdict) :
+    verdictOut t i sub pk v = verdictOut s i sub pk v := by
+  cases v with
+  | limit => rfl
+  | deferred pid => rfl
+  | exhausted => simp only [verdictOut, h.obj]
+  | sent pid => simp only [verdictOut, copyOf_congr h, h.obj]
+
+theorem verdictObj_congr {i : Nat} {s t : Server} (h : SameFor i s t) (sub : Sub) (pk : Msg) (v : Verdict) :
+    verdictObj t i sub pk v = verdictObj s i sub pk v := by
+  cases v with
+  | limit => exact h.obj
+  | exhausted => exact h.obj
+  | deferred pid => simp only [verdictObj, copyOf_congr h, h.obj]
+  | sent pid => simp only [verdictObj, copyOf_congr h, h.obj]
+
+theorem entryOut_congr {i : Nat} {s t : Server} (h : SameFor i s t) (sub : Sub) (pk : Msg) :
+    entryOut t i sub pk = entryOut s i sub pk := by
+  unfold entryOut
+  rw [passes_congr h, liveB_congr h, verdict_congr h, verdictOut_congr h, h.caps, h.obj]
+
+theorem entryObj_congr {i : Nat} {s t : Server} (h : SameFor i s t) (sub : Sub) (pk : Msg) :
+    entryObj t i sub pk = entryObj s i sub pk := by
+  unfold entryObj
+  rw [passes_congr h, verdict_congr h, verdictObj_congr h, h.caps, h.obj]
+
+/-- the entry is SERVED: it passes the gates, the client can be written to, and the copy is QoS 0 or the delivery is
+    in case (d) -/
+def served (s : Server) (i : Nat) (sub : Sub) (pk : Msg) : Bool :=
+  gate s i sub pk && (shapeQos s.caps sub pk.qos == 0 || isSent (verdict s i))
+
+theorem gate_eq (s : Server) (i : Nat) (sub : Sub) (pk : Msg) : gate s i sub pk = (passes s i sub pk && liveB s i) := by
+  unfold gate passes liveB
+  simp only [Bool.and_assoc]
+
+theorem entryOut_pubConns (s : Server) (i : Nat) (sub : Sub) (pk : Msg) :
+    (entryOut s i sub pk).filterMap pubConn = if served s i sub pk = true then [(getObj s i).conn] else [] := by
+  unfold entryOut served
+  rw [gate_eq]
+  cases hp : passes s i sub pk with
+  | false => rfl
+  | true =>
+    rw [if_pos rfl]
+    by_cases hq : shapeQos s.caps sub pk.qos > 0
+    · rw [if_pos hq]
+      have hq0 : (shapeQos s.caps sub pk.qos == 0) = false := by
+        simp only [beq_eq_false_iff_ne]; omega
+      rw [hq0]
+      cases hl : liveB s i with
+      | true =>
+        rw [if_pos rfl]
+        cases verdict s i <;> rfl
+      | false =>
+        rw [if_neg (by decide)]
+        cases verdict s i <;> rfl
+    · rw [if_neg hq]
+      have hq0 : (shapeQos s.caps sub pk.qos == 0) = true := by
+        simp only [beq_iff_eq]; omega
+      rw [hq0]
+      cases hl : liveB s i <;> rfl
+
+/-! ### the loop of `publishToSubscribers`, any QoS -/
+
+/-- the connection on which the entry `cs` of the subscriber map is written a copy, if it is: as a function of the
+    state BEFORE the publish -/
+def recipientQ (s : Server) (pk : Msg) (cs : Str × Sub) : Option Nat :=
+  match assocGet s.clients cs.1 with
+  | none => none
+  | some i => if served s i cs.2 pk = true then some (getObj s i).conn else none
+
+/-- `t` agrees with `s` on everything the entries of `L` read -/
+structure Agree (s t : Server) (L : List (Str × Sub)) : Prop where
+  caps : t.caps = s.caps
+  clients : t.clients = s.clients
+  aclDeny : t.aclDeny = s.aclDeny
+  len : t.objs.length = s.objs.length
+  objs : ∀ cs ∈ L, ∀ i, assocGet s.clients cs.1 = some i → getObj t i = getObj s i
+
+/-- no registered client has outbound topic aliases -/
+def NoAliases (s : Server) : Prop := ∀ id i, (id, i) ∈ s.clients → (getObj s i).tam = 0
+
+theorem fold_exact (s : Server) (hw : WF s) (hna : NoAliases s) (pk : Msg) (ht : pk.type = 3)
+    (L : List (Str × Sub)) (hnd : (L.map Prod.fst).Nodup) :
+    ∀ acc : Server × List Out, Agree s acc.1 L →
+      (L.foldl (deliverStep pk) acc).2.filterMap pubConn = acc.2.filterMap pubConn ++ L.filterMap (recipientQ s pk) ∧
+      (∀ cs ∈ L, ∀ i, assocGet s.clients cs.1 = some i → getObj (L.foldl (deliverStep pk) acc).1 i = entryObj s i cs.2 pk) ∧
+      (∀ k, (∀ cs ∈ L, assocGet s.clients cs.1 ≠ some k) → getObj (L.foldl (deliverStep pk) acc).1 k = getObj acc.1 k) ∧
+      (∀ x ∈ (L.foldl (deliverStep pk) acc).2,
+        x ∈ acc.2 ∨ ∃ cs ∈ L, ∃ i, assocGet s.clients cs.1 = some i ∧ x ∈ entryOut s i cs.2 pk) ∧
+      (∀ cs ∈ L, ∀ i, assocGet s.clients cs.1 = some i → ∀ x ∈ entryOut s i cs.2 pk, x ∈ (L.foldl (deliverStep pk) acc).2) ∧
+      (∀ x ∈ acc.2, x ∈ (L.foldl (deliverStep pk) acc).2) := by
+  induction L with
+  | nil =>
+    intro acc _
+    exact ⟨by simp, fun cs h => absurd h List.not_mem_nil, fun _ _ => rfl, fun x hx => Or.inl hx,
+      fun cs h => absurd h List.not_mem_nil, fun x hx => hx⟩
+  | cons cs rest ih =>
+    rw [List.map_cons, List.nodup_cons] at hnd
+    have hnd' : (rest.map Prod.fst).Nodup := hnd.2
+    have hhead : ∀ c' ∈ rest, c'.1 ≠ cs.1 := by
+      intro c' hc' e
+      exact hnd.1 (List.mem_map.mpr ⟨c', hc', e⟩)
+    replace ih := ih hnd'
+    intro acc A
+    rw [List.foldl_cons]
+    have Arest : ∀ t', t'.caps = s.caps → t'.clients = s.clients → t'.aclDeny = s.aclDeny → t'.objs.length = s.objs.length →
+        (∀ c' ∈ rest, ∀ j, assocGet s.clients c'.1 = some j → getObj t' j = getObj s j) → Agree s t' rest :=
+      fun t' a b c d e => ⟨a, b, c, d, e⟩
+    cases hc : assocGet s.clients cs.1 with
+    | none =>
+      have e : deliverStep pk acc cs = acc := by
+        unfold deliverStep
+        rw [A.clients, hc]
+      rw [e]
+      have hr : recipientQ s pk cs = none := by unfold recipientQ; rw [hc]
+      obtain ⟨q1, q2, q3, q4, q5, q6⟩ := ih acc (Arest acc.1 A.caps A.clients A.aclDeny A.len
+        (fun c' h' j hj => A.objs c' (List.mem_cons_of_mem _ h') j hj))
+      refine ⟨by rw [q1, List.filterMap_cons, hr], ?_, ?_, ?_, ?_, q6⟩
+      · intro c0 h0 i hi0
+        rcases List.mem_cons.mp h0 with h | h
+        · rw [h, hc] at hi0; cases hi0
+        · exact q2 c0 h i hi0
+      · intro k hk
+        exact q3 k (fun c' h' => hk c' (List.mem_cons_of_mem _ h'))
+      · intro x hx
+        rcases q4 x hx with h | ⟨c', h', j, hj, hx'⟩
+        · exact Or.inl h
+        · exact Or.inr ⟨c', List.mem_cons_of_mem _ h', j, hj, hx'⟩
+      · intro c0 h0 i hi0
+        rcases List.mem_cons.mp h0 with h | h
+        · rw [h, hc] at hi0; cases hi0
+        · exact q5 c0 h i hi0
+    | some i =>
+      have hm := assocGet_mem _ _ _ hc
+      have hv := hw.clients_valid _ _ hm
+      have hoi : getObj acc.1 i = getObj s i := A.objs cs List.mem_cons_self i hc
+      have hsf : SameFor i s acc.1 := ⟨A.caps, A.aclDeny, hoi⟩
+      have hi' : i < acc.1.objs.length := by rw [A.len]; exact hv.1
+      have htam : (getObj acc.1 i).tam = 0 := by rw [hoi]; exact hna _ _ hm
+      have e : deliverStep pk acc cs =
+          ((entryResult acc.1 i cs.2 pk).1, acc.2 ++ entryOut s i cs.2 pk) := by
+        unfold deliverStep
+        rw [A.clients, hc]
+        show ((publishToClient acc.1 i cs.2 false pk).1, acc.2 ++ (publishToClient acc.1 i cs.2 false pk).2) = _
+        rw [entry_eq acc.1 i cs.2 pk hi' htam ht, entryResult_snd, entryOut_congr hsf]
+      rw [e]
+      have ho := entry_only acc.1 i cs.2 pk
+      have hne : ∀ c' ∈ rest, ∀ j, assocGet s.clients c'.1 = some j → j ≠ i := by
+        intro c' h' j hj e'
+        subst e'
+        have := (hw.clients_valid _ _ (assocGet_mem _ _ _ hj)).2
+        exact hhead c' h' (this.symm.trans hv.2)
+      have hr : recipientQ s pk cs = if served s i cs.2 pk = true then some (getObj s i).conn else none := by
+        unfold recipientQ; rw [hc]
+      obtain ⟨q1, q2, q3, q4, q5, q6⟩ := ih ((entryResult acc.1 i cs.2 pk).1, acc.2 ++ entryOut s i cs.2 pk)
+        (Arest _ (ho.caps.trans A.caps) (ho.clients.trans A.clients) (ho.aclDeny.trans A.aclDeny) (ho.len.trans A.len)
+          (fun c' h' j hj => (ho.other j (hne c' h' j hj)).trans (A.objs c' (List.mem_cons_of_mem _ h') j hj)))
+      have hobj : getObj (rest.foldl (deliverStep pk) ((entryResult acc.1 i cs.2 pk).1, acc.2 ++ entryOut s i cs.2 pk)).1 i =
+          entryObj s i cs.2 pk := by
+        rw [q3 i (fun c' h' e' => hne c' h' i e' rfl)]
+        show getObj (entryResult acc.1 i cs.2 pk).1 i = _
+        rw [getObj_entryResult acc.1 i cs.2 pk hi', entryObj_congr hsf]
+      refine ⟨?_, ?_, ?_, ?_, ?_, ?_⟩
+      · rw [q1, List.filterMap_append, entryOut_pubConns, List.filterMap_cons, hr, List.append_assoc]
+        cases served s i cs.2 pk <;> rfl
+      · intro c0 h0 j hj
+        rcases List.mem_cons.mp h0 with h | h
+        · rw [h, hc] at hj
+          cases hj
+          rw [h]; exact hobj
+        · exact q2 c0 h j hj
+      · intro k hk
+        have hki : k ≠ i := fun e' => hk cs List.mem_cons_self (by rw [hc, e'])
+        rw [q3 k (fun c' h' => hk c' (List.mem_cons_of_mem _ h'))]
+        exact ho.other k hki
+      · intro x hx
+        rcases q4 x hx with h | ⟨c', h', j, hj, hx'⟩
+        · rcases List.mem_append.mp h with h | h
+          · exact Or.inl h
+          · exact Or.inr ⟨cs, List.mem_cons_self, i, hc, h⟩
+        · exact Or.inr ⟨c', List.mem_cons_of_mem _ h', j, hj, hx'⟩
+      · intro c0 h0 j hj x hx
+        rcases List.mem_cons.mp h0 with h | h
+        · rw [h, hc] at hj
+          cases hj
+          rw [h] at hx
+          exact q6 x (List.mem_append_right _ hx)
+        · exact q5 c0 h j hj x hx
+      · intro x hx
+        exact q6 x (List.mem_append_left _ hx)
 
 end Mochi.Broker.Q1
